@@ -181,4 +181,7 @@ def str_method(interp, st, s, name, args, kwargs, node):
             sp = st.ghost.get("str_split")
             if sp:
                 return sp(interp, st, s, args)
+        if name == "replace" and len(args) == 2 and all(isinstance(a, str) for a in args):
+            return z3.Function("str_replace_%s" % "_".join("%02x" % ord(c) for c in args[0] + "|" + args[1]),
+                               z3.StringSort(), z3.StringSort())(s)
     raise Unsupported("str method %s on symbolic string" % name)
